@@ -312,7 +312,12 @@ where
 
                 let mut info_hashes_by_worker: BTreeMap<usize, Vec<InfoHash>> = BTreeMap::new();
 
-                for info_hash in info_hashes.into_iter() {
+                // Apply the limit on the whole request, before splitting it up
+                // by swarm worker (each of which applies it on its own part)
+                for info_hash in info_hashes
+                    .into_iter()
+                    .take(self.config.protocol.max_scrape_torrents)
+                {
                     let info_hashes = info_hashes_by_worker
                         .entry(calculate_request_consumer_index(&self.config, info_hash))
                         .or_default();
